@@ -41,7 +41,11 @@ impl Listener {
             Err(e) if e.kind() == io::ErrorKind::WouldBlock => {
                 Ok(None)
             }
-            Err(e) => Err(e.into()),
+            // Running out of descriptors (EMFILE/ENFILE), memory (ENOBUFS/ENOMEM) or a
+            // connection that was reset before it was accepted says something about this
+            // one attempt, not about the listener: the clients already connected must
+            // keep being served, and accepting is simply tried again on the next pass.
+            Err(_) => Ok(None),
         }
     }
     
